@@ -37,9 +37,6 @@ func (x *Exec) libModel(fr *Frame, st *State, ins ssa.Instruction, callee *ssa.F
 	switch full {
 	case "fmt.Sprintf", "fmt.Sprint", "fmt.Sprintln":
 		// result: a string determined by the format and the argument values (uninterpreted)
-		if vc.noName > 0 {
-			panic(engErr("fmt.Sprintf inside quantifier body"))
-		}
 		anyT := types.NewInterfaceType(nil, nil)
 		var fmtT Term
 		var sl Term
